@@ -7,6 +7,7 @@ import (
 	"context"
 	"fmt"
 	"io"
+	"os"
 	"strconv"
 	"sync"
 	"sync/atomic"
@@ -18,6 +19,32 @@ import (
 	"go.flow.arcalot.io/pluginsdk/plugin"
 	"go.flow.arcalot.io/pluginsdk/schema"
 )
+
+// ledger of the scripted deployer for runs of the command-line program (whose hook sink is off): one line per
+// deployment, closed connection and started execution, appended to the file named by VERIF_EXEC_LOG
+var execLogPath = os.Getenv("VERIF_EXEC_LOG")
+var execLogMu sync.Mutex
+
+func ledger(parts ...string) {
+	if execLogPath == "" {
+		return
+	}
+	execLogMu.Lock()
+	defer execLogMu.Unlock()
+	f, err := os.OpenFile(execLogPath, os.O_APPEND|os.O_CREATE|os.O_WRONLY, 0o644)
+	if err != nil {
+		return
+	}
+	line := ""
+	for i, x := range parts {
+		if i > 0 {
+			line += " "
+		}
+		line += x
+	}
+	_, _ = f.WriteString(line + "\n")
+	_ = f.Close()
+}
 
 // ---- script ------------------------------------------------------------------------------------------------------
 
@@ -173,6 +200,7 @@ func (p *scriptedConn) Close() error {
 		e2 := p.writer.Close()
 		p.wg.Wait()
 		theSink.note("XConnClose", "conn", p.id, "src", p.src, "phase", p.phase)
+		ledger("close", p.id, p.phase, p.src)
 		if e1 != nil || e2 != nil {
 			p.closeErr = fmt.Errorf("error while closing pipes (%v, %v)", e1, e2)
 		}
@@ -236,6 +264,7 @@ func (c *scriptedConnector) Deploy(ctx context.Context, src string) (deployer.Pl
 		_ = atp.RunATPServer(pluginCtx, stdinSub, stdoutSub, sch)
 	}()
 	theSink.note("XDeploy", "conn", connID, "src", src, "phase", phase)
+	ledger("deploy", connID, phase, src)
 	return conn, nil
 }
 
@@ -327,6 +356,7 @@ func newScriptedSchema(book *scriptBook, src string, connID string, kill func())
 		cur := book.running[src]
 		book.mu.Unlock()
 		theSink.note("XExecStart", "src", src, "conn", connID, "id", in.ID, "input", flat, "concurrent", cur)
+		ledger("exec", connID, src, in.ID)
 		defer func() {
 			book.mu.Lock()
 			book.running[src]--
